@@ -307,6 +307,19 @@ def run(prog, chk):
     if memrules.clean_helpers_reset(prog, r12) < 4:
         raise Broken("fewer than 4 frees in *_clean helpers")
 
+    r15 = chk.rule("R15-no-release-of-an-unset-pointer", "when an allocating callee fails, the local it would have set is not released: "
+                   "a pointer declared without an initialiser holds stack garbage on that path (shared with C16 R14)",
+                   primary=False, floor=15)
+    from .. import uninitfree
+    if uninitfree.rule(prog, r15) < 15:
+        raise Broken("fewer than 15 locals set through an out-parameter found")
+    r16 = chk.rule("R16-failure-indicator-comes-with-its-code", "a function that reports failure by a negative return and the reason through "
+                   "an `int *` parameter has stored through it on every path to such a return (the caller returns that variable, an "
+                   "uninitialised local, as the result code)", primary=False, floor=2)
+    from .. import outcode
+    if outcode.rule(prog, r16) < 2:
+        raise Broken("no function with an error-code out-parameter and a negative failure return found")
+
     r14 = chk.rule("R14-capacity-is-allocation-count", "after a refused (re-)allocation the capacity recorded is that of the block "
                    "actually held: every allocation that can be the last before a capacity store agrees with it (shared with C16 R10)",
                    primary=False, floor=4)
